@@ -105,7 +105,7 @@ var writeCmdPlay = &cobra.Command{
 		}
 		outPortName, _ := cmd.Flags().GetString("port")
 		var buf bytes.Buffer
-		if err := wArgs.writeMIDITo(&buf); err != nil {
+		if err := wArgs.writeReadableMIDITo(&buf); err != nil {
 			return err
 		}
 
@@ -128,7 +128,7 @@ var writeCmdEvent = &cobra.Command{
 		defer out.Close()
 
 		var buf bytes.Buffer
-		if err := wArgs.writeMIDITo(&buf); err != nil {
+		if err := wArgs.writeReadableMIDITo(&buf); err != nil {
 			return err
 		}
 
@@ -212,6 +212,14 @@ type writeCmdArgs struct {
 	trackSet   *midix.TrackSetController
 	instrument string
 	program    uint8
+}
+
+// writeReadableMIDITo writes MIDI that is going to be read back by midix.Reader.
+func (w writeCmdArgs) writeReadableMIDITo(wr io.Writer) error {
+	if n := w.trackSet.Set().Len(); n > midix.MaxReadableTracks {
+		return errorx.Invalid("%d tracks cannot be read back, at most %d", n, midix.MaxReadableTracks)
+	}
+	return w.writeMIDITo(wr)
 }
 
 func (w writeCmdArgs) writeMIDITo(wr io.Writer) error {
